@@ -307,6 +307,9 @@ func lsmEnabled(x *seqExec) []string {
 	}
 	if x.j.Bool("ttl", false) {
 		ops = append(ops, "L"+st.keys[0])
+		if x.j.Bool("big", false) {
+			ops = append(ops, "Q"+st.keys[0])
+		}
 	}
 	if st.normal && x.j.Bool("snapshots", true) {
 		if len(st.snaps) < x.j.Int("max_snaps", 2) {
@@ -375,7 +378,7 @@ func lsmApply(x *seqExec, op string) bool {
 	db := x.db
 	defer func() { st.fixAges(x.db) }()
 	switch op[0] {
-	case 'S', 'B', 'D', 'E', 'L':
+	case 'S', 'B', 'D', 'E', 'L', 'Q':
 		// S set, B big (value log) set, D delete, E set with discard-earlier-versions, L set with TTL
 		k := op[1:]
 		ts := st.nextTs
@@ -388,10 +391,11 @@ func lsmApply(x *seqExec, op string) bool {
 		}
 		w := mwrite{Key: k, Ts: ts}
 		var err error
-		mkval := func(ts uint64) string { return lsmValue(k, ts, op[0] == 'B') }
+		isBig := op[0] == 'B' || op[0] == 'Q' // Q: a value-log value with a TTL
+		mkval := func(ts uint64) string { return lsmValue(k, ts, isBig) }
 		if st.normal {
 			// the commit timestamp is not known yet: tag the value with the write ordinal
-			mkval = func(uint64) string { return lsmValue(k, uint64(len(st.writes)+1), op[0] == 'B') }
+			mkval = func(uint64) string { return lsmValue(k, uint64(len(st.writes)+1), isBig) }
 		}
 		switch op[0] {
 		case 'D':
@@ -401,7 +405,7 @@ func lsmApply(x *seqExec, op string) bool {
 			w.Val = mkval(ts)
 			w.Meta = bitDiscardEarlierVersions
 			err = txn.SetEntry(NewEntry([]byte(k), []byte(w.Val)).WithDiscard())
-		case 'L':
+		case 'L', 'Q':
 			w.Val = mkval(ts)
 			e := NewEntry([]byte(k), []byte(w.Val)).WithTTL(5 * time.Second)
 			w.Exp = e.ExpiresAt
